@@ -89,7 +89,7 @@ pub fn check(c: &Case) -> Verdict {
     }
     let nontrivial = built.blocks.len() >= 2 && (boundary || segwit || multi);
     let sample = serde_json::json!({"coin": built.coin.cli(), "verify": c.verify, "blocks": built.blocks.iter().map(|(h, b)| serde_json::json!({"height": h, "txs": b.txs.len(), "bytes": b.ser().len(), "tx_shapes": b.txs.iter().take(4).map(|t| format!("{}in/{}out{}", t.inputs.len(), t.outputs.len(), if t.segwit {"/segwit"} else {""})).collect::<Vec<_>>()})).collect::<Vec<_>>()});
-    Verdict::Pass(Pass { nontrivial, key: key_of(c), classes, known: vec![], sub_evals: 1, sample: Some(sample) })
+    Verdict::Pass(Pass { nontrivial, key: key_of(c), classes, known: vec![], sub_evals: 1, sample: Some(sample), extra_keys: vec![] })
 }
 
 fn run(eng: &Engine, a: &Args) {
